@@ -356,6 +356,10 @@ def _part_b(res, case):
 # ------------------------------------------------------------------ part C
 
 
+# number of snapshots each shipped file holds (as parsed at the audited commit; new files are simply not listed)
+SHIPPED_COUNTS = {"inYJ-multicolour-2020-12-18 11_26_34.snapshot": 5}
+
+
 def _part_c(res, case):
     files = packs.snapshot_files()
     try:
@@ -372,11 +376,28 @@ def _part_c(res, case):
     if not snaps:
         res.fail("C19|shipped|no-snapshot", f"{os.path.basename(path)} parses to no snapshot")
         return
+    base = os.path.basename(path)
+    want = SHIPPED_COUNTS.get(base, 1)
+    if len(snaps) != want:
+        res.fail("C19|shipped|snapshot-count", f"{base} parses to {len(snaps)} snapshots, it holds {want}")
+    if want == 1 and int(case.get("snap", 0)) == 0:
+        # the simulator's own `load <file>` command (it refuses a file that does not hold exactly one snapshot)
+        sim0 = vworld.make_simulator()
+        marker = object()
+        sim0.snapshot = marker
+        try:
+            sim0.do_load(path)
+        except Exception as exc:  # noqa
+            res.fail("C19|shipped|load-command-raises", f"simulator `load {base}`: {type(exc).__name__}: {exc}")
+        else:
+            if sim0.snapshot is marker or sim0.structure.status_block != snaps[0].bytes:
+                res.fail("C19|shipped|load-command", f"simulator `load {base}` did not install the file's snapshot")
     si = int(case.get("snap", 0))
     if si >= len(snaps):
+        if si < want:
+            return
         raise InvalidCase(case)
     snap = snaps[si]
-    base = os.path.basename(path)
     if len(snap.bytes) != 1024:
         res.fail("C19|shipped|block-size", f"{base}#{si} has {len(snap.bytes)} bytes")
         return
